@@ -14,6 +14,12 @@ _R = (" Reader combinators: schema.Or / Mapped / Literal are modelled as functio
 HISTORY_NOTE = {k: _H for k in ("C01", "C02", "C03", "C04", "C05", "C06", "C08", "C09", "C16", "C19")}
 for _k in ("C02", "C06", "C08"):
     HISTORY_NOTE[_k] += _R
+_S = (" Struct reader: schema.Struct (core/schema/struct.go) is modelled as StructRd.read over flat struct schemas with theorems attestation_exact (the caveats of"
+      " ucan/attest are accepted exactly when they are the one-entry map {proof: link}), read_unknown_fails / read_missing_fails / read_wrong_kind_fails / read_not_map"
+      " (fails closed); values at and around the valid shape of three schemas (the library's Attestation, optional-only, required+optional) are read by the"
+      " library's reader and by the model (op structread).")
+HISTORY_NOTE["C04"] += _S
+HISTORY_NOTE["C02"] += _S
 HISTORY_NOTE["C09"] += (" Fresh-process batches (batchfresh): a worker process is started for the case alone, so that the concurrent validations are the first"
                         " use of the library in the process (lazily initialised package state), under the race detector.")
 HISTORY_NOTE["C17"] = (" Fresh-process cases (bsfresh): a worker process is started for the case alone; goroutines attach to, iterate and archive one shared"
@@ -59,7 +65,8 @@ PROPS = {
     "C02": {
         "manifest": {"text": "Theorems C02_binds / resolveCap_nb / overlay_get_set / overlay_get_unset: at every step of every returned authorization the capability shown to Derives as 'delegated' carries the overlay of the caveats written in that delegation over the claimed ones (set fields shown, unset inherited) and Derives accepted it; C02_attest: a re-delegated ucan/attest{proof:X} can only attest X. Correspondence on worlds where 60% of delegations carry restricting caveats under three derivation rules; the implementation's returned capabilities (incl. caveats) at each level are re-derived by the chain checker.", "design_ref": '5.2', "note": VALIDATOR_NOTE},
         "obligations": ob("UcantoModel.Props.C02", "V.C02_binds", "V.rest_binds", "V.resolveCap_nb", "V.overlay_get_set", "V.overlay_get_unset", "V.attest_chain_proof", "V.C02_attest")
-                       + ob("UcantoModel.Props.Readers", "Rd.or_first", "Rd.or_none_iff", "Rd.or_some_mem", "Rd.or_nested_any", "Rd.evalSeq_get"),
+                       + ob("UcantoModel.Props.Readers", "Rd.or_first", "Rd.or_none_iff", "Rd.or_some_mem", "Rd.or_nested_any", "Rd.evalSeq_get")
+                       + ob("UcantoModel.Props.StructRd", "StructRd.attestation_exact", "StructRd.attestation_accepts", "StructRd.read_unknown_fails", "StructRd.read_missing_fails", "StructRd.read_wrong_kind_fails", "StructRd.read_not_map"),
         "rule": WORLD_RULE + "; 60% of delegations carry restricting caveats, derivation rules default/eq/le", "trusted_base": VALIDATOR_TRUSTED,
     },
     "C03": {
@@ -70,7 +77,8 @@ PROPS = {
     },
     "C04": {
         "manifest": {"text": "Theorems C04_accept / C04_attestation_shape / C04_other_link: a token whose issuer is neither did:key nor the authority validates only through a sibling attestation (not itself, first capability ucan/attest, `with` the authority DID, proof = exactly this token's link, in window, own chain valid, not revoked) or, when the session claim failed without failed proof chains, through the resolved key's signature. Correspondence (both directions) on worlds that all contain a non-key issuer with ten attestation variants and key-resolver variants.", "design_ref": '5.4', "note": VALIDATOR_NOTE},
-        "obligations": ob("UcantoModel.Props.C04", "V.C04_accept", "V.C04_attestation_shape", "V.C04_other_link", "V.parseCap_attDesc"),
+        "obligations": ob("UcantoModel.Props.C04", "V.C04_accept", "V.C04_attestation_shape", "V.C04_other_link", "V.parseCap_attDesc")
+                       + ob("UcantoModel.Props.StructRd", "StructRd.attestation_exact", "StructRd.attestation_accepts", "StructRd.read_unknown_fails", "StructRd.read_missing_fails", "StructRd.read_wrong_kind_fails", "StructRd.read_not_map"),
         "rule": WORLD_RULE + "; every world has a non-key issuer in the chain with one of ten attestation variants", "trusted_base": VALIDATOR_TRUSTED,
     },
     "C05": {
